@@ -125,6 +125,8 @@ def _load_replay():
 
 
 def _register(name, value):
+    if any(n == name for n, _ in _cur["syms"]):
+        raise RuntimeError("harness bug: symbol name %r used twice in one path (replay files are keyed by name)" % name)
     _cur["syms"].append((name, value))
 
 
